@@ -137,6 +137,9 @@ def project(tree, owned, rb, rules, owned_globals=()):
         if m is None:
             continue
         r = m[0]
+        if r.uid not in omap and r.twin is not None and r.twin.uid in omap and not r.block:
+            out[row] = odict()          # the generator asks for the other form of a setting it owns
+            continue
         if r.uid in omap:
             o = omap[r.uid]
             out[row] = project(sub, o.children, rb, r.children, owned_globals) if (r.block and not r.rewrite) or o.children == "ALL" \
